@@ -20,6 +20,11 @@ def jobs(tier, ws, prop='C04'):
     for ch in chunks:
         pp_fetch = [1, 29, 33, 35, 36] if tier == 'quick' else list(range(1, ch + 1))
         pp_dec = [4, 29, 32, 33, 35, 36] if tier == 'quick' else list(range(0, ch + 1))
+        if tier != 'quick' and ch != 36:
+            # second chunk size: every third position plus the whole boundary region (all positions of chunk 36 are
+            # covered above; the full product is 2114 jobs / > 4 h, and every position of chunk 40 is also run by C19 thorough)
+            pp_fetch = [q for q in pp_fetch if q % 3 == 1 or q > ch - 10]
+            pp_dec = [q for q in pp_dec if q % 3 == 0 or q > ch - 10]
         b = 'chunk=%d, window position enumerated' % ch
         for inj in (0, 1):
             js.append(mk('hdr_fetch/initial/c%d/inj%d' % (ch, inj), 'hdr_fetch', ['-DH_fetch', '-DCONTRACT_FETCH_INITIAL', '-DCHUNK=%d' % ch, '-DINJECT=%d' % inj],
@@ -39,7 +44,7 @@ def jobs(tier, ws, prop='C04'):
                 if tier == 'quick':
                     nlens = ([3, 8] if pp in (4, 33, 35) else []) if ver == 1 else ([8] if pp in (29, 35) else [])
                 else:
-                    nlens = range(0, 9)
+                    nlens = range(0, 9) if ch == 36 else (0, 3, 8)
                 for nlen in nlens:
                     js.append(mk('hdr_get_NC_name/c%d/p%d/v%d/n%d' % (ch, pp, ver, nlen), 'hdr_get_NC_name',
                                  ['-DH_name', '-DFMTVER=%d' % ver, '-DNLEN=%d' % nlen, '-DNAMEB=8'] + d, ['noerr'],
